@@ -75,8 +75,9 @@ iter:
 				slip.TypePanic(s, depth, "sequence", args[i], "string", "list", "vector")
 			}
 		}
-		if predicate.Call(s, pargs, d2) != nil {
-			return slip.True
+		// The value of some is the first true value the predicate returns.
+		if v := predicate.Call(s, pargs, d2); v != nil {
+			return v
 		}
 	}
 	return nil
